@@ -216,6 +216,15 @@ def check_tree_case(rec, case):
         # was built - the tree answers for the intervals it was built from
         rec.count("tree.built_from_buffer_refilled_afterwards")
         stored[...] = stored[::-1].copy() + (stored.max() - stored.min() + 7)
+    if len(qs) >= 3 and len(ivs) % 3 == 0:
+        # the same tree asked from several threads at once (vt/monitors/concurrency.py)
+        from vt.monitors import concurrency
+        calls = [(tree.query, ([q],), {}) for q in qs[:6]] + [(tree.query_points, ([p_],), {}) for p_ in pts[:3]]
+        verdict, detail = concurrency.concurrent_check(calls, threads=4, rounds=2)
+        rec.count("tree.concurrent_" + verdict.replace("/", ""))
+        if verdict == "race":
+            rec.violation("tree-wrong-answer", dict(case, concurrent=True),
+                          dict(detail, where="queries on one tree from 4 threads at once"))
     nontriv = unsorted_both(case["intervals"])
     # -- query ---------------------------------------------------------------
     rec.ev(len(qs) + len(pts))  # one evaluation per query interval / query point answered by the real tree
@@ -321,11 +330,71 @@ def small_exhaustive_cases():
 # --------------------------------------------------------------------------
 # match()
 # --------------------------------------------------------------------------
+def static_partner_case(rec, rng):
+    """The partner is one all-covering file: a static file without placeholders (coverage datetime.min ..
+    datetime.max) or a single file with an explicit coverage of eight centuries."""
+    import datetime as dt
+    import os
+    import shutil
+    from typhon.files import FileSet
+    from vt.core import scratch_dir
+    base = scratch_dir("c03s")
+    try:
+        tmpl = base + "/prim/{year}{month}{day}_{hour}{minute}{second}-{end_hour}{end_minute}{end_second}.dat"
+        os.makedirs(base + "/prim")
+        os.makedirs(base + "/static")
+        t = dt.datetime(2018, rng.randrange(1, 13), rng.randrange(1, 28), rng.randrange(0, 20))
+        prim = []
+        for k in range(rng.choice([1, 3, 6])):
+            t0 = t + dt.timedelta(minutes=30 * k + rng.randrange(0, 5))
+            t1 = t0 + dt.timedelta(minutes=rng.choice([0, 10, 25]))
+            name = tmpl.format(year="%04d" % t0.year, month="%02d" % t0.month, day="%02d" % t0.day,
+                               hour="%02d" % t0.hour, minute="%02d" % t0.minute, second="%02d" % t0.second,
+                               end_hour="%02d" % t1.hour, end_minute="%02d" % t1.minute,
+                               end_second="%02d" % t1.second)
+            open(name, "w").write("x")
+            prim.append((name, t0, t1))
+        open(base + "/static/mask.dat", "w").write("m")
+        fs1 = FileSet(path=tmpl, name="prim")
+        for how in ("static", "eight-centuries"):
+            kw = {} if how == "static" else {
+                "time_coverage": (dt.datetime(1600, 1, 1), dt.datetime(2400, 1, 1))}
+            fs2 = FileSet(path=base + "/static/mask.dat", name="static", **kw)
+            start = t - dt.timedelta(hours=1)
+            end = t + dt.timedelta(hours=12)
+            for mi in (None, "10 min"):
+                case = {"kind": "static-partner", "how": how, "max_interval": mi,
+                        "primaries": [[os.path.basename(n), a.isoformat(), b.isoformat()] for n, a, b in prim]}
+                rec.ev()
+                rec.count("match.static_partner_calls")
+                try:
+                    got = [(os.path.basename(os.fspath(p)), [os.path.basename(os.fspath(x)) for x in sec])
+                           for p, sec in fs1.match(fs2, start, end, max_interval=mi)]
+                    back = [(os.path.basename(os.fspath(p)), sorted(os.path.basename(os.fspath(x)) for x in sec))
+                            for p, sec in fs2.match(fs1, start, end, max_interval=mi)]
+                except Exception as exc:
+                    rec.violation("match-exception", case, {"exception": repr(exc),
+                                                            "trace": traceback.format_exc()[-900:]})
+                    continue
+                want = [(os.path.basename(n), ["mask.dat"]) for n, a, b in sorted(prim, key=lambda z: (z[1], z[2]))]
+                wback = [("mask.dat", sorted(os.path.basename(n) for n, a, b in prim))]
+                if got != want or back != wback:
+                    rec.violation("match-wrong-answer", case, {"got": got[:4], "want": want[:4],
+                                                               "other_direction": back[:2],
+                                                               "want_other_direction": wback})
+                else:
+                    rec.nontriv(["match-static", how, mi, len(prim)], case["primaries"])
+    finally:
+        shutil.rmtree(base, ignore_errors=True)
+
+
 def run_match(spec, rec):
     from vt.models import fileset as fm
     from vt.monitors import treewrap
     rng = rng_for(spec["seed"], "c03-match", spec["shard"])
     treewrap.install(rec)
+    for _ in range(2):
+        static_partner_case(rec, rng)
     for i in range(spec["n"]):
         fm.match_case(rng, rec, spec, i)
     treewrap.uninstall()
@@ -349,6 +418,10 @@ def run_shard(spec, rec):
 
 
 def replay(case, rec):
+    if case.get("kind") == "static-partner":
+        for sd in range(8):
+            static_partner_case(rec, rng_for(sd, "c03-static-replay"))
+        return
     if case.get("kind") == "tree":
         check_tree_case(rec, case)
     else:
